@@ -815,8 +815,11 @@ func ParseCommands(env *interp.ExecEnv, name string, src interface{}) ([]ast.Com
 
 	l := newLexer(env, name, r)
 	yyParse(l)
+	// wait for the lexer goroutine
+	l.stop()
+	<-l.done
 	verifHook(l, hkParseExit)
-	return l.cmds, l.comments, l.err
+	return l.cmds, l.comments, l.result()
 }
 
 // ParseCommand parses src and returns a command.
